@@ -36,6 +36,33 @@ KNOWN_TRIGGERS = [
 ]
 
 
+def keyword_orders(rng: random.Random, n: int) -> list[bytes]:
+    """Texts in which several words of ONE shipped keyword list occur, in an order other than the list's own (a searcher
+    reports its hits grouped by keyword, so the engine's ordering of hits is what puts them in text order), mixed with
+    words of other lists and with other indicators."""
+    import multidecoder
+
+    lists = []
+    for sub, _dirs, files in os.walk(os.path.join(os.path.dirname(multidecoder.__file__), "keywords")):
+        for fn in sorted(files):
+            with open(os.path.join(sub, fn), "rb") as f:
+                words = sorted({w for w in f.read().splitlines() if w and len(w) < 40})
+            if len(words) >= 2:
+                lists.append(words)
+    out = []
+    glue = [b" ", b"; ", b" notepad; ", b"(", b" http://evil-site.net/a ", b"\n", b" = "]
+    for i in range(n):
+        words = lists[i % len(lists)]
+        a = rng.randrange(len(words) - 1)
+        pick = [words[j] for j in sorted(rng.sample(range(len(words)), min(len(words), rng.randint(2, 4))), reverse=True)]
+        if i % 3 == 0:
+            pick = [words[a + 1], words[a], words[a + 1]]          # later word, earlier word, later word again
+        if i % 5 == 0:
+            pick.insert(1, rng.choice(rng.choice(lists)))
+        out.append(rng.choice([b"", b"call "]) + b"".join(w + rng.choice(glue) for w in pick) + b"end")
+    return out
+
+
 def rng_for(tag: str) -> random.Random:
     return random.Random(f"{SEED}:{tag}")
 
